@@ -69,16 +69,15 @@ theorem headLine_status (c0 : Core) (v ct r : Bytes) (code : Nat) (h0 : c0.state
   simp only [headLine, h0, if_true, splitN_status v ct r hv hc, hascii, Bool.not_true, Bool.false_eq_true,
     if_false, hcode]
 
-/-- an ordinary header line `Name: value` -/
+/-- an ordinary header line `name:value` in any spelling -/
 theorem headLine_header (c : Core) (n v : Bytes) (h1 : c.state = 1) (hn : (58 : UInt8) ∉ n)
-    (hne : n ++ 58 :: 32 :: v ≠ [])
-    (hascii : (n ++ 32 :: v).all (· < 128) = true)
-    (hname : title (strip n) = n) (hval : strip (32 :: v) = v)
-    (hte : n ≠ strTE) (hcl : n ≠ strCL) :
-    headLine c (n ++ 58 :: 32 :: v) = .ok { c with headers := c.headers ++ [(n, v)] } := by
+    (hascii : (n ++ v).all (· < 128) = true)
+    (hte : title (strip n) ≠ strTE) (hcl : title (strip n) ≠ strCL) :
+    headLine c (n ++ 58 :: v) = .ok { c with headers := c.headers ++ [(title (strip n), strip v)] } := by
   have hs : ¬ c.state = 0 := by omega
-  simp only [headLine, hs, if_false, hne, splitN_header n (32 :: v) hn, hascii, Bool.not_true,
-    Bool.false_eq_true, hname, hval, hte, hcl]
+  have hne : n ++ 58 :: v ≠ [] := by simp
+  simp only [headLine, hs, if_false, hne, splitN_header n v hn, hascii, Bool.not_true,
+    Bool.false_eq_true, hte, hcl]
 
 /-- the `Content-Length` header -/
 theorem headLine_clen (c : Core) (lt : Bytes) (len : Nat) (h1 : c.state = 1)
@@ -105,21 +104,20 @@ theorem headLine_blank (c : Core) (h1 : c.state = 1) : headLine c [] = .ok { c w
 theorem headLoop_headers : ∀ (hs : List (Bytes × Bytes)) (c : Core) (rest : Bytes) (fuel : Nat),
     c.state = 1 → (∀ h ∈ hs, GoodHeader h) →
     headLoop (fuel + hs.length) ⟨c, writeHeaders hs ++ rest⟩ =
-      headLoop fuel ⟨{ c with headers := c.headers ++ hs }, rest⟩ := by
+      headLoop fuel ⟨{ c with headers := c.headers ++ hs.map normHeader }, rest⟩ := by
   intro hs
   induction hs with
   | nil => intro c rest fuel _ _; simp [writeHeaders]
   | cons h hs ih =>
     intro c rest fuel h1 hg
     have gh := hg h (by simp)
-    have hne : headerLine h ≠ [] := by simp [headerLine]
-    have hl := headLine_header c h.1 h.2 h1 gh.nocolon hne gh.ascii gh.name gh.value gh.notTE gh.notCL
+    have hl := headLine_header c h.1 h.2 h1 gh.nocolon gh.ascii gh.notTE gh.notCL
     have hstep := headLoop_line (fuel + hs.length) c _ (headerLine h) (writeHeaders hs ++ rest) (by omega) gh.nocrlf hl
     simp only [writeHeaders, List.length_cons, List.append_assoc] at hstep ⊢
     rw [show fuel + (hs.length + 1) = fuel + hs.length + 1 by omega, hstep]
-    have := ih { c with headers := c.headers ++ [(h.1, h.2)] } rest fuel h1 (fun x hx => hg x (by simp [hx]))
+    have := ih { c with headers := c.headers ++ [(title (strip h.1), strip h.2)] } rest fuel h1 (fun x hx => hg x (by simp [hx]))
     rw [this]
-    simp [List.append_assoc]
+    simp [List.append_assoc, normHeader]
 
 theorem headLoop_done (fuel : Nat) (p : P) (h : 2 ≤ p.core.state) : headLoop fuel p = .ok p := by
   cases fuel with
@@ -270,7 +268,7 @@ theorem headLoop_write' (m : WMsg) (code : Nat) (g : Good m code) (rest : Bytes)
   have gf := g.framing
   cases hfr : m.framing with
   | none =>
-    have hbl := headLine_blank { ({ version := m.version, code := code, state := 1 } : Core) with headers := [] ++ m.headers } rfl
+    have hbl := headLine_blank { ({ version := m.version, code := code, state := 1 } : Core) with headers := [] ++ m.headers.map normHeader } rfl
     have := headLoop_line (N + 1) _ _ [] (m.wireBody ++ rest) (by simp) rfl hbl
     simp only [Framing.lines, Framing.header, List.nil_append, List.append_assoc] at this ⊢
     rw [this, headLoop_done _ _ (by simp)]
@@ -278,19 +276,19 @@ theorem headLoop_write' (m : WMsg) (code : Nat) (g : Good m code) (rest : Bytes)
   | length lt =>
     rw [hfr] at gf
     obtain ⟨ga, gv, gn⟩ := length_line_good lt _ gf
-    have hcl := headLine_clen { ({ version := m.version, code := code, state := 1 } : Core) with headers := [] ++ m.headers }
+    have hcl := headLine_clen { ({ version := m.version, code := code, state := 1 } : Core) with headers := [] ++ m.headers.map normHeader }
       lt m.body.length rfl ga gv gf
     have h2 := headLoop_line (N + 1) _ _ (strCL ++ 58 :: 32 :: lt) (crlf ++ m.wireBody ++ rest) (by simp) gn hcl
-    have hbl := headLine_blank { ({ version := m.version, code := code, state := 1, clen := some m.body.length } : Core) with headers := [] ++ m.headers ++ [(strCL, lt)] } rfl
+    have hbl := headLine_blank { ({ version := m.version, code := code, state := 1, clen := some m.body.length } : Core) with headers := [] ++ m.headers.map normHeader ++ [(strCL, lt)] } rfl
     have h3 := headLoop_line N _ _ [] (m.wireBody ++ rest) (by simp) rfl hbl
     simp only [Framing.lines, Framing.header, headerLine, List.nil_append, List.append_assoc] at h2 h3 ⊢
     rw [h2, h3, headLoop_done _ _ (by simp)]
     simp [WMsg.headCore, WMsg.parsedHeaders, hfr, Framing.header]
   | chunked cs =>
-    have hte := headLine_te { ({ version := m.version, code := code, state := 1 } : Core) with headers := [] ++ m.headers } rfl
+    have hte := headLine_te { ({ version := m.version, code := code, state := 1 } : Core) with headers := [] ++ m.headers.map normHeader } rfl
     have gn : noCRLF (strTE ++ 58 :: 32 :: strChunked) = true := by decide +kernel
     have h2 := headLoop_line (N + 1) _ _ (strTE ++ 58 :: 32 :: strChunked) (crlf ++ m.wireBody ++ rest) (by simp) gn hte
-    have hbl := headLine_blank { ({ version := m.version, code := code, state := 1, chunked := true } : Core) with headers := [] ++ m.headers ++ [(strTE, strChunked)] } rfl
+    have hbl := headLine_blank { ({ version := m.version, code := code, state := 1, chunked := true } : Core) with headers := [] ++ m.headers.map normHeader ++ [(strTE, strChunked)] } rfl
     have h3 := headLoop_line N _ _ [] (m.wireBody ++ rest) (by simp) rfl hbl
     simp only [Framing.lines, Framing.header, headerLine, List.nil_append, List.append_assoc] at h2 h3 ⊢
     rw [h2, h3, headLoop_done _ _ (by simp)]
@@ -544,8 +542,8 @@ theorem GoodRun_prefix : ∀ (ms : List (WMsg × Nat)), (∀ x ∈ ms, Good x.1 
 theorem goodHeaderB_sound (h : Bytes × Bytes) (hb : goodHeaderB h = true) : GoodHeader h := by
   simp only [goodHeaderB, Bool.and_eq_true, Bool.not_eq_true', List.contains_eq_mem, decide_eq_false_iff_not,
     beq_iff_eq, bne_iff_ne, ne_eq] at hb
-  obtain ⟨⟨⟨⟨⟨⟨h1, h2⟩, h3⟩, h4⟩, h5⟩, h6⟩, h7⟩ := hb
-  exact ⟨h1, h2, h3, h4, h5, h6, h7⟩
+  obtain ⟨⟨⟨⟨h1, h2⟩, h3⟩, h4⟩, h5⟩ := hb
+  exact ⟨h1, h2, h3, h4, h5⟩
 
 theorem framing_goodB_sound (f : Framing) (body : Bytes) (hb : f.goodB body = true) : f.Good body := by
   cases f with
